@@ -73,6 +73,8 @@ func main() {
 			clientScenario(seed, workers, iters, &r, fail)
 		case "secman-shared-config":
 			secmanScenario(seed, workers, iters, &r, fail)
+		case "session-ids":
+			sessionIDScenario(seed, workers, iters, &r, fail)
 		case "cache-atomicity":
 			atomicityScenario(seed, workers, iters, &r, fail)
 		case "percommand-shared-config":
@@ -349,6 +351,38 @@ func atomicityScenario(seed int64, workers, iters int, r *result, fail func(stri
 
 // ---- many client connections sharing one configuration object and one cache --
 
+// srvCfg is the shared server-side policy: like secCfg, but its method list starts
+// with a method this build does not implement (PASSWORD) followed by further ones,
+// as an administrator's SEC_*_AUTHENTICATION_METHODS may.
+func srvCfg() *security.SecurityConfig {
+	c := secCfg(nil)
+	c.AuthMethods = []security.AuthMethod{security.AuthPassword, security.AuthFS, security.AuthClaimToBe}
+	c.CryptoMethods = []security.CryptoMethod{security.CryptoAES, security.CryptoMethod("BLOWFISH")}
+	return c
+}
+
+// fingerprint renders every data field of a configuration (deeply: slice contents),
+// so "the caller's configuration object is unchanged by the handshakes" can be checked.
+func fingerprint(c *security.SecurityConfig) string {
+	return fmt.Sprintf("peer=%q auth=%v/%v crypto=%v/%v integ=%v cert=%q key=%q ca=%q sn=%q tok=%d tf=%q td=%q pool=%q skd=%q age=%d ik=%v rv=%q dom=%q sub=%q pid=%d dur=%d lease=%d cmd=%d acmd=%d ecdh=%q tag=%q sid=%q",
+		c.PeerName, c.AuthMethods, c.Authentication, c.CryptoMethods, c.Encryption, c.Integrity, c.CertFile, c.KeyFile, c.CAFile, c.ServerName,
+		len(c.Token), c.TokenFile, c.TokenDir, c.TokenPoolSigningKeyFile, c.TokenSigningKeyDir, c.TokenMaxAge, c.IssuerKeys, c.RemoteVersion,
+		c.TrustDomain, c.Subsystem, c.ServerPid, c.SessionDuration, c.SessionLease, c.Command, c.AuthCommand, c.ECDHPublicKey, c.SecurityTag, c.SessionID)
+}
+
+// distinct reports identifiers issued more than once
+func distinct(ids []string, what string, fail func(string, ...interface{})) {
+	seen := map[string]int{}
+	for _, id := range ids {
+		seen[id]++
+	}
+	for id, n := range seen {
+		if n > 1 {
+			fail("%s %q was issued %d times (two sessions share one id)", what, id, n)
+		}
+	}
+}
+
 func secCfg(cache *security.SessionCache) *security.SecurityConfig {
 	return &security.SecurityConfig{
 		AuthMethods:    []security.AuthMethod{security.AuthClaimToBe},
@@ -368,7 +402,9 @@ func clientScenario(seed int64, workers, iters int, r *result, fail func(string,
 		return
 	}
 	defer l.Close()
-	srv := server.New(secCfg(nil))
+	srvConfig := srvCfg() // shared by every server-side handshake (ServeConn copies it shallowly)
+	srv := server.New(srvConfig)
+	srvBefore := fingerprint(srvConfig)
 	srv.Handle(commands.DC_NOP, func(ctx context.Context, c *server.Conn) error {
 		m := message.NewMessageForStream(c.Stream)
 		if err := m.PutInt(ctx, 7); err != nil {
@@ -380,9 +416,12 @@ func clientScenario(seed int64, workers, iters int, r *result, fail func(string,
 	defer cancel()
 	go func() { _ = srv.Serve(ctx, l) }()
 	shared := secCfg(security.NewSessionCache()) // ONE configuration object and ONE cache for every client
+	shared.AuthMethods = []security.AuthMethod{security.AuthPassword, security.AuthClaimToBe}
+	sharedBefore := fingerprint(shared)
 	addr := l.Addr().String()
 	var mu sync.Mutex
 	okCount, resumed := 0, 0
+	var freshIDs []string
 	for round := 0; round < iters; round++ { // round 0: fresh handshakes; later rounds: resumptions of the shared session
 		var wg sync.WaitGroup
 		for w := 0; w < workers; w++ {
@@ -408,6 +447,8 @@ func clientScenario(seed int64, workers, iters int, r *result, fail func(string,
 				okCount++
 				if n := cl.GetSecurityNegotiation(); n != nil && n.SessionResumed {
 					resumed++
+				} else if n != nil {
+					freshIDs = append(freshIDs, n.SessionId)
 				}
 				mu.Unlock()
 			}()
@@ -421,6 +462,14 @@ func clientScenario(seed int64, workers, iters int, r *result, fail func(string,
 	if iters > 1 && resumed == 0 {
 		fail("no connection resumed the shared session")
 	}
+	distinct(freshIDs, "session id", fail)
+	// the configuration objects the caller shares between connections are inputs: unchanged
+	if after := fingerprint(shared); after != sharedBefore {
+		fail("the clients' shared SecurityConfig was modified by the handshakes: before {%s} after {%s}", sharedBefore, after)
+	}
+	if after := fingerprint(srvConfig); after != srvBefore {
+		fail("the server's shared SecurityConfig was modified by the handshakes: before {%s} after {%s}", srvBefore, after)
+	}
 }
 
 // a server whose SecurityConfigForCommand returns ONE shared *SecurityConfig for the
@@ -433,8 +482,10 @@ func perCommandScenario(seed int64, workers, iters int, r *result, fail func(str
 		return
 	}
 	defer l.Close()
-	srv := server.New(secCfg(nil))
-	perCmd := secCfg(nil) // the one shared per-command policy object
+	srv := server.New(srvCfg())
+	perCmd := srvCfg() // the one shared per-command policy object
+	perCmdBefore := fingerprint(perCmd)
+	var ids []string
 	srv.SecurityConfigForCommand = func(cmd int) *security.SecurityConfig {
 		if cmd == commands.DC_NOP {
 			return perCmd
@@ -476,6 +527,9 @@ func perCommandScenario(seed int64, workers, iters int, r *result, fail func(str
 				} else {
 					mu.Lock()
 					okCount++
+					if n := cl.GetSecurityNegotiation(); n != nil {
+						ids = append(ids, n.SessionId)
+					}
 					mu.Unlock()
 				}
 				_ = cl.Close()
@@ -492,6 +546,70 @@ func perCommandScenario(seed int64, workers, iters int, r *result, fail func(str
 	if okCount != workers*iters {
 		fail("%d of %d overlapping handshakes succeeded", okCount, workers*iters)
 	}
+	distinct(ids, "session id", fail) // every fresh handshake gets its own session
+	if after := fingerprint(perCmd); after != perCmdBefore {
+		fail("the shared per-command SecurityConfig was modified by the handshakes: before {%s} after {%s}", perCmdBefore, after)
+	}
+}
+
+// the session-id generator under real parallelism: no two callers get the same
+// counter, hence no two sessions the same id (all accesses are atomic, so the race
+// detector is silent about a Load..Store increment; only the values tell)
+func sessionIDScenario(seed int64, workers, iters int, r *result, fail func(string, ...interface{})) {
+	out := make([][]int, workers)
+	ids := make([][]string, workers)
+	start := make(chan struct{})
+	var wg sync.WaitGroup
+	for w := 0; w < workers; w++ {
+		wg.Add(1)
+		go func(w int) {
+			defer wg.Done()
+			vals := make([]int, 0, iters)
+			var sids []string
+			<-start
+			for i := 0; i < iters; i++ {
+				v := security.GetNextSessionCounter()
+				vals = append(vals, v)
+				if i%64 == 0 {
+					sids = append(sids, security.GenerateSessionID(security.GetNextSessionCounter()))
+				}
+			}
+			out[w], ids[w] = vals, sids
+		}(w)
+	}
+	close(start)
+	wg.Wait()
+	seen := map[int]int{}
+	n := 0
+	for w := range out {
+		prev := 0
+		for _, v := range out[w] {
+			seen[v]++
+			n++
+			if v <= prev {
+				fail("counter not increasing for one caller: %d after %d", v, prev)
+			}
+			prev = v
+		}
+	}
+	dups := 0
+	for v, k := range seen {
+		if k > 1 {
+			dups++
+			if dups <= 3 {
+				fail("session counter value %d was handed out %d times", v, k)
+			}
+		}
+	}
+	if dups > 0 {
+		fail("%d of %d counter values were handed out more than once", dups, n)
+	}
+	var all []string
+	for _, x := range ids {
+		all = append(all, x...)
+	}
+	distinct(all, "generated session id", fail)
+	r.Ops = n
 }
 
 // one SecurityManager (one configuration) used for many handshakes at once
